@@ -227,6 +227,10 @@ func pureOperand(e ast.Expr) bool {
 		return true
 	case *ast.ParenExpr:
 		return pureOperand(x.X)
+	case *ast.SelectorExpr:
+		return pureOperand(x.X)
+	case *ast.UnaryExpr:
+		return x.Op == token.AND && pureOperand(x.X)
 	}
 	return false
 }
@@ -237,6 +241,16 @@ func (in *inliner) firstCall(p *ast.Expr) *ast.Expr {
 	case *ast.CallExpr:
 		if in.calleeOf(x) != nil {
 			return p
+		}
+		// g(f(a), ...): f(a) is evaluated first when g and the arguments before it are pure
+		if !pureOperand(x.Fun) {
+			return nil
+		}
+		for i := range x.Args {
+			if pureOperand(x.Args[i]) {
+				continue
+			}
+			return in.firstCall(&x.Args[i])
 		}
 	case *ast.ParenExpr:
 		return in.firstCall(&x.X)
@@ -286,12 +300,23 @@ func (in *inliner) siteOfSimple(s ast.Stmt, enc *types.Signature) *site {
 		if c, ok := x.X.(*ast.CallExpr); ok && in.calleeOf(c) != nil {
 			return &site{call: c, drop: true}
 		}
+		if p := in.firstCall(&x.X); p != nil {
+			return &site{call: (*p).(*ast.CallExpr), slot: p}
+		}
 	case *ast.AssignStmt:
 		if len(x.Rhs) != 1 || (x.Tok != token.DEFINE && x.Tok != token.ASSIGN) {
 			return nil
 		}
 		c, ok := x.Rhs[0].(*ast.CallExpr)
 		if !ok || in.calleeOf(c) == nil {
+			for _, l := range x.Lhs {
+				if !pureOperand(l) {
+					return nil
+				}
+			}
+			if p := in.firstCall(&x.Rhs[0]); p != nil {
+				return &site{call: (*p).(*ast.CallExpr), slot: p}
+			}
 			return nil
 		}
 		for _, l := range x.Lhs {
@@ -311,6 +336,9 @@ func (in *inliner) siteOfSimple(s ast.Stmt, enc *types.Signature) *site {
 		}
 		if c, ok := vs.Values[0].(*ast.CallExpr); ok && in.calleeOf(c) != nil {
 			return &site{call: c, assign: &vs.Values}
+		}
+		if p := in.firstCall(&vs.Values[0]); p != nil {
+			return &site{call: (*p).(*ast.CallExpr), slot: p}
 		}
 	}
 	return nil
@@ -336,22 +364,15 @@ func (in *inliner) siteOf(s ast.Stmt, enc *types.Signature) *site {
 				}
 			}
 		}
-		// exactly one expandable call among otherwise pure results
-		var slot *ast.Expr
+		// the first result that is not pure may hold the call evaluated first
 		for i := range x.Results {
-			if c, ok := x.Results[i].(*ast.CallExpr); ok && in.calleeOf(c) != nil {
-				if slot != nil {
-					return nil
-				}
-				slot = &x.Results[i]
+			if pureOperand(x.Results[i]) {
 				continue
 			}
-			if !pureOperand(x.Results[i]) {
-				return nil
+			if p := in.firstCall(&x.Results[i]); p != nil {
+				return &site{call: (*p).(*ast.CallExpr), slot: p}
 			}
-		}
-		if slot != nil {
-			return &site{call: (*slot).(*ast.CallExpr), slot: slot}
+			return nil
 		}
 	case *ast.IfStmt:
 		if x.Init != nil {
